@@ -84,7 +84,8 @@ def run_kx(units, tier, repo, use_cache=True, only=None):
                 for crate, lst in need.items():
                     names = [h['name'] for _, h in lst]
                     tmax = max(h.get('timeout', 600) for _, h in lst)
-                    jobs = min(12, len(names))
+                    biggest = max(h.get('rss_gb', 4) for _, h in lst)
+                    jobs = max(1, min(12, len(names), int(48 / biggest)))
                     log('[kx] %s: %d harness(es), timeout %ds, -j %d' % (crate, len(names), tmax, jobs))
                     r = kxrun.run_kani(work, crate, names, jobs=jobs, harness_timeout=tmax,
                                        rss_limit_gb=max(h.get('rss_gb', 12) for _, h in lst),
